@@ -1,8 +1,736 @@
-(** Model of the lists command family (stub: filled in by its own section of the build). *)
-From Ferrous Require Import Base.Bytes Model.Resp Model.Types.
+(** Model of the list, set and hash commands: commands/lists.rs, sets.rs,
+    hashes.rs and the engine.rs functions they call (engine.rs lpush .. hincrby).
+
+    Shape of every single-key command: the handler validates arity and argument
+    format (every refusal there is an "ERR ..." reply), then the engine function
+    looks the key up under the shard lock, matches on the stored value's type and
+    either answers, replaces the collection in place (the entry's deadline is
+    kept), creates the key (no deadline) or removes it (when the collection became
+    empty; the sweeper's deadline index is NOT touched by a removal).  None of
+    these engine functions consults is_expired.
+
+    An engine function is therefore modelled as a pure function
+    [option value -> frame * upd] of the value currently stored at the key, and
+    [on_key] applies its verdict to the database.
+
+    The model follows the tree after the repairs c5f1b6a (HINCRBY checked add),
+    61742d6 (HSET count on a fresh key), 2b792ef (LRANGE/LTRIM stop before the head),
+    6f35e51 (LREM isize::MIN), eab489c (SINTER/SDIFF type checks), 84546fc
+    (SRANDMEMBER negative counts).  [PANIC] is the distinguished outcome a panicking
+    Rust operation would have; after the repairs no command of this family reaches
+    one (Props/C03.v c03_no_panic). *)
+From Ferrous Require Import Base.Bytes Model.Resp Model.Types Model.Strings.
 Open Scope Z_scope.
+
+Definition PANIC : frame := FError (bs "PANIC").
+Definition BADORACLE : frame := FError (bs "BADORACLE").
+Definition isize_min := i64_min.
+Definition isize_max := i64_max.
+
+(** ---- verdict of an engine function on one key ---- *)
+Inductive upd := Keep | Put (v : value) | Del.
+
+Definition apply_upd (d : db) (k : bytes) (old : option entry) (u : upd) : db :=
+  match u with
+  | Keep => d
+  | Del => del_entry d k
+  | Put v => put_entry d k {| e_val := v;
+                              e_exp := match old with Some e => e_exp e | None => None end |}
+  end.
+
+Definition on_key (d : db) (k : bytes) (f : option value -> frame * upd) : frame * db :=
+  let cur := get_entry d k in
+  match f (option_map e_val cur) with
+  | (r, u) => (r, apply_upd d k cur u)
+  end.
+
+Definition get_val (d : db) (k : bytes) : option value := option_map e_val (get_entry d k).
+
+(** ---- argument helpers ---- *)
+(** every element must be BulkString(Some _), otherwise the handler refuses *)
+Fixpoint all_bulks (l : list frame) : option (list bytes) :=
+  match l with
+  | [] => Some []
+  | FBulk b :: r => match all_bulks r with Some t => Some (b :: t) | None => None end
+  | _ :: _ => None
+  end.
+(** SREM / HDEL: non-bulk arguments are skipped ([_ => continue]) *)
+Fixpoint only_bulks (l : list frame) : list bytes :=
+  match l with
+  | [] => []
+  | FBulk b :: r => b :: only_bulks r
+  | _ :: r => only_bulks r
+  end.
+(** HSET / HMSET field-value pairs *)
+Fixpoint pairs_of (l : list frame) : option (list (bytes * bytes)) :=
+  match l with
+  | [] => Some []
+  | FBulk f :: FBulk v :: r => match pairs_of r with Some t => Some ((f, v) :: t) | None => None end
+  | _ => None
+  end.
+
+(** =====================  LISTS  ===================== *)
+
+(** lpush: push_front one by one; rpush: push_back *)
+Definition e_push (left : bool) (els : list bytes) (cur : option value) : frame * upd :=
+  match cur with
+  | Some (VList l) =>
+      let l' := if left then rev els ++ l else l ++ els in (r_int (len l'), Put (VList l'))
+  | Some _ => (r_wrongtype, Keep)
+  | None =>
+      let l' := if left then rev els else els in (r_int (len l'), Put (VList l'))
+  end.
+
+(** lpop / rpop: the key is removed when the list is empty afterwards *)
+Definition e_pop (left : bool) (cur : option value) : frame * upd :=
+  match cur with
+  | Some (VList l) =>
+      if left then
+        match l with
+        | [] => (r_nil, Del)
+        | x :: r => (r_bulk x, match r with [] => Del | _ => Put (VList r) end)
+        end
+      else
+        match rev l with
+        | [] => (r_nil, Del)
+        | x :: r => (r_bulk x, match r with [] => Del | _ => Put (VList (rev r)) end)
+        end
+  | Some _ => (r_wrongtype, Keep)
+  | None => (r_nil, Keep)
+  end.
+
+Definition e_llen (cur : option value) : frame * upd :=
+  match cur with
+  | Some (VList l) => (r_int (len l), Keep)
+  | Some _ => (r_wrongtype, Keep)
+  | None => (r_int 0, Keep)
+  end.
+
+(** lrange / ltrim normalisation (engine.rs):
+      let start = if start < 0 { (len + start).max(0) } else { start } as usize;
+      let stop  = if stop  < 0 { len + stop } else { stop };
+      if stop >= 0 { let stop = stop as usize; ...loop... }
+    start is a non-negative isize, so its cast is the identity; stop is cast only when
+    non-negative.  The loop keeps the items with start <= i <= stop. *)
+Definition norm_clamp (n i : Z) : Z := if i <? 0 then Z.max (n + i) 0 else i.
+Definition norm_stop (n i : Z) : Z := if i <? 0 then n + i else i.
+Fixpoint slice_loop (i s e : Z) (l : list bytes) : list bytes :=
+  match l with
+  | [] => []
+  | x :: r => if (s <=? i) && (i <=? e) then x :: slice_loop (i + 1) s e r
+              else slice_loop (i + 1) s e r
+  end.
+Definition list_slice (l : list bytes) (start stop : Z) : list bytes :=
+  let n := len l in
+  if norm_stop n stop <? 0 then [] else slice_loop 0 (norm_clamp n start) (norm_stop n stop) l.
+
+Definition e_lrange (start stop : Z) (cur : option value) : frame * upd :=
+  match cur with
+  | Some (VList l) => (r_bulks (list_slice l start stop), Keep)
+  | Some _ => (r_wrongtype, Keep)
+  | None => (FArray [], Keep)
+  end.
+
+(** ltrim: always marks the key modified; removes it when nothing is kept *)
+Definition e_ltrim (start stop : Z) (cur : option value) : frame * upd :=
+  match cur with
+  | Some (VList l) =>
+      match list_slice l start stop with
+      | [] => (r_ok, Del)
+      | l' => (r_ok, Put (VList l'))
+      end
+  | Some _ => (r_wrongtype, Keep)
+  | None => (r_ok, Keep)
+  end.
+
+(** lindex / lset: idx = if index < 0 { len + index } else { index }; valid iff 0 <= idx < len *)
+Definition norm_idx (n i : Z) : Z := if i <? 0 then n + i else i.
+Definition idx_ok (n i : Z) : bool := (0 <=? norm_idx n i) && (norm_idx n i <? n).
+Definition list_index (l : list bytes) (i : Z) : option bytes :=
+  if idx_ok (len l) i then nth_error l (Z.to_nat (norm_idx (len l) i)) else None.
+Fixpoint replace_nth (l : list bytes) (i : nat) (x : bytes) : list bytes :=
+  match l, i with
+  | [], _ => []
+  | _ :: r, O => x :: r
+  | y :: r, S i' => y :: replace_nth r i' x
+  end.
+
+Definition e_lindex (i : Z) (cur : option value) : frame * upd :=
+  match cur with
+  | Some (VList l) => (match list_index l i with Some x => r_bulk x | None => r_nil end, Keep)
+  | Some _ => (r_wrongtype, Keep)
+  | None => (r_nil, Keep)
+  end.
+
+Definition e_lset (i : Z) (v : bytes) (cur : option value) : frame * upd :=
+  match cur with
+  | Some (VList l) =>
+      if idx_ok (len l) i
+      then (r_ok, Put (VList (replace_nth l (Z.to_nat (norm_idx (len l) i)) v)))
+      else (r_err, Keep)                       (* IndexOutOfRange *)
+  | Some _ => (r_wrongtype, Keep)
+  | None => (r_err, Keep)                      (* NoSuchKey *)
+  end.
+
+(** lrem: scan in one direction removing matches while the budget lasts *)
+Fixpoint lrem_fwd (x : bytes) (todo : Z) (l : list bytes) : list bytes * Z :=
+  match l with
+  | [] => ([], 0)
+  | y :: r =>
+      if beq y x && (0 <? todo)
+      then match lrem_fwd x (todo - 1) r with (r', k) => (r', k + 1) end
+      else match lrem_fwd x todo r with (r', k) => (y :: r', k) end
+  end.
+(** count < 0: the budget is count.unsigned_abs() (2^63 for isize::MIN) *)
+Definition list_rem (count : Z) (x : bytes) (l : list bytes) : list bytes * Z :=
+  if count =? 0 then
+    (filter (fun y => negb (beq y x)) l, len (filter (fun y => beq y x) l))
+  else if 0 <? count then lrem_fwd x count l
+  else match lrem_fwd x (- count) (rev l) with (r, k) => (rev r, k) end.
+
+Definition e_lrem (count : Z) (x : bytes) (cur : option value) : frame * upd :=
+  match cur with
+  | Some (VList l) =>
+      match list_rem count x l with
+      | (l', k) => (r_int k, match l' with [] => Del | _ => Put (VList l') end)
+      end
+  | Some _ => (r_wrongtype, Keep)
+  | None => (r_int 0, Keep)
+  end.
+
+(** =====================  SETS  ===================== *)
+
+Fixpoint sadd_loop (s : list bytes) (ms : list bytes) (added : Z) : list bytes * Z :=
+  match ms with
+  | [] => (s, added)
+  | m :: r => if bmem m s then sadd_loop s r added else sadd_loop (m :: s) r (added + 1)
+  end.
+Definition e_sadd (ms : list bytes) (cur : option value) : frame * upd :=
+  match cur with
+  | Some (VSet s) => match sadd_loop s ms 0 with (s', a) => (r_int a, Put (VSet s')) end
+  | Some _ => (r_wrongtype, Keep)
+  | None => match sadd_loop [] ms 0 with (s', a) => (r_int a, Put (VSet s')) end
+  end.
+
+Fixpoint srem_loop (s : list bytes) (ms : list bytes) (removed : Z) : list bytes * Z :=
+  match ms with
+  | [] => (s, removed)
+  | m :: r => if bmem m s then srem_loop (bremove m s) r (removed + 1) else srem_loop s r removed
+  end.
+Definition e_srem (ms : list bytes) (cur : option value) : frame * upd :=
+  match cur with
+  | Some (VSet s) =>
+      match srem_loop s ms 0 with
+      | (s', k) => (r_int k, match s' with [] => Del | _ => Put (VSet s') end)
+      end
+  | Some _ => (r_wrongtype, Keep)
+  | None => (r_int 0, Keep)
+  end.
+
+Definition e_smembers (cur : option value) : frame * upd :=
+  match cur with
+  | Some (VSet s) => (r_bulks (bsort s), Keep)
+  | Some _ => (r_wrongtype, Keep)
+  | None => (FArray [], Keep)
+  end.
+Definition e_sismember (m : bytes) (cur : option value) : frame * upd :=
+  match cur with
+  | Some (VSet s) => (r_int (if bmem m s then 1 else 0), Keep)
+  | Some _ => (r_wrongtype, Keep)
+  | None => (r_int 0, Keep)
+  end.
+Definition e_scard (cur : option value) : frame * upd :=
+  match cur with
+  | Some (VSet s) => (r_int (len s), Keep)
+  | Some _ => (r_wrongtype, Keep)
+  | None => (r_int 0, Keep)
+  end.
+
+(** multi-key algebra (read-only).  SWrong = Err(WrongType). *)
+Inductive sres := SOk (l : list bytes) | SWrong.
+Definition set_union (acc s : list bytes) : list bytes :=
+  fold_left (fun a m => if bmem m a then a else m :: a) s acc.
+(** sunion: missing keys are skipped, any non-set key is an error *)
+Fixpoint sunion_loop (d : db) (keys : list bytes) (acc : list bytes) : sres :=
+  match keys with
+  | [] => SOk acc
+  | k :: r => match get_val d k with
+              | Some (VSet s) => sunion_loop d r (set_union acc s)
+              | Some _ => SWrong
+              | None => sunion_loop d r acc
+              end
+  end.
+(** sinter: a missing key empties the intersection; the remaining keys are still type-checked *)
+Fixpoint sinter_loop (d : db) (keys : list bytes) (acc : list bytes) : sres :=
+  match keys with
+  | [] => SOk acc
+  | k :: r => match get_val d k with
+              | Some (VSet s) => sinter_loop d r (filter (fun m => bmem m s) acc)
+              | Some _ => SWrong
+              | None => sinter_loop d r []
+              end
+  end.
+(** sdiff: a missing key is the empty set (first or later); every key is type-checked *)
+Fixpoint sdiff_loop (d : db) (keys : list bytes) (acc : list bytes) : sres :=
+  match keys with
+  | [] => SOk acc
+  | k :: r => match get_val d k with
+              | Some (VSet s) => sdiff_loop d r (filter (fun m => negb (bmem m s)) acc)
+              | Some _ => SWrong
+              | None => sdiff_loop d r acc
+              end
+  end.
+Definition eng_sunion (d : db) (keys : list bytes) : sres := sunion_loop d keys [].
+Definition eng_sinter (d : db) (keys : list bytes) : sres :=
+  match keys with
+  | [] => SOk []
+  | k :: r => match get_val d k with
+              | Some (VSet s) => sinter_loop d r s
+              | Some _ => SWrong
+              | None => sinter_loop d r []
+              end
+  end.
+Definition eng_sdiff (d : db) (keys : list bytes) : sres :=
+  match keys with
+  | [] => SOk []
+  | k :: r => match get_val d k with
+              | Some (VSet s) => sdiff_loop d r s
+              | Some _ => SWrong
+              | None => sdiff_loop d r []
+              end
+  end.
+Definition sres_reply (r : sres) : frame :=
+  match r with SOk l => r_bulks (bsort l) | SWrong => r_wrongtype end.
+
+(** random picks: the implementation's reply is the oracle; it is followed only
+    when it is an admissible outcome of the code (shuffle + truncate: distinct
+    members, exactly min(count, len) of them; choose with repetition: exactly
+    -count members). *)
+Definition all_in (xs s : list bytes) : bool := forallb (fun x => bmem x s) xs.
+Fixpoint nodupb (l : list bytes) : bool :=
+  match l with [] => true | x :: r => negb (bmem x r) && nodupb r end.
+Definition oracle_bulks (o : option frame) : option (list bytes) :=
+  match o with Some (FArray l) => all_bulks l | _ => None end.
+Definition oracle_bulk (o : option frame) : option (list bytes) :=
+  match o with Some (FBulk m) => Some [m] | _ => None end.
+(** admissible outcome of "shuffle, keep the first n" *)
+Definition pick_distinct_ok (s : list bytes) (n : Z) (xs : list bytes) : bool :=
+  (len xs =? n) && nodupb xs && all_in xs s.
+(** admissible outcome of n independent draws *)
+Definition pick_repeat_ok (s : list bytes) (n : Z) (xs : list bytes) : bool :=
+  (len xs =? n) && all_in xs s.
+
+(** srandmember(count): count = None is the handler's call with 1 and a bulk reply.
+    count < 0: checked_neg refuses i64::MIN ("value is out of range"), otherwise -count
+    independent draws (the loop runs -count times whatever the set's size: the work is
+    not bounded by input + state, see known_findings.json srandmember-neg-work). *)
+Definition e_srandmember (count : option Z) (oracle : option frame) (cur : option value) : frame * upd :=
+  match cur with
+  | Some (VSet s) =>
+      match s with
+      | [] => (match count with None => r_nil | Some _ => FArray [] end, Keep)
+      | _ =>
+        match count with
+        | None =>
+            match oracle_bulk oracle with
+            | Some xs => if pick_distinct_ok s 1 xs
+                         then (match xs with m :: _ => r_bulk m | [] => r_nil end, Keep)
+                         else (BADORACLE, Keep)
+            | None => (BADORACLE, Keep)
+            end
+        | Some c =>
+            if 0 <=? c then
+              match oracle_bulks oracle with
+              | Some xs => if pick_distinct_ok s (Z.min c (len s)) xs
+                           then (r_bulks (bsort xs), Keep) else (BADORACLE, Keep)
+              | None => (BADORACLE, Keep)
+              end
+            else if c =? i64_min then (r_err, Keep)
+            else
+              match oracle_bulks oracle with
+              | Some xs => if pick_repeat_ok s (- c) xs
+                           then (r_bulks (bsort xs), Keep) else (BADORACLE, Keep)
+              | None => (BADORACLE, Keep)
+              end
+        end
+      end
+  | Some _ => (r_wrongtype, Keep)
+  | None => (match count with None => r_nil | Some _ => FArray [] end, Keep)
+  end.
+
+Definition remove_all (xs s : list bytes) : list bytes := fold_left (fun a m => bremove m a) xs s.
+(** spop(count): [single] = the reply is one bulk (no count argument) *)
+Definition e_spop (single : bool) (count : Z) (oracle : option frame) (cur : option value) : frame * upd :=
+  match cur with
+  | Some (VSet s) =>
+      match s with
+      | [] => (if single then r_nil else FArray [], Keep)
+      | _ =>
+        match (if single then oracle_bulk oracle else oracle_bulks oracle) with
+        | Some xs =>
+            if pick_distinct_ok s (Z.min count (len s)) xs then
+              (if single then match xs with m :: _ => r_bulk m | [] => r_nil end
+               else r_bulks (bsort xs),
+               match remove_all xs s with [] => Del | s' => Put (VSet s') end)
+            else (BADORACLE, Keep)
+        | None => (BADORACLE, Keep)
+        end
+      end
+  | Some _ => (r_wrongtype, Keep)
+  | None => (if single then r_nil else FArray [], Keep)
+  end.
+
+(** =====================  HASHES  ===================== *)
+
+(** HashMap::insert for each pair; counts the fields that were new *)
+Fixpoint hset_loop (h : list (bytes * bytes)) (ps : list (bytes * bytes)) (added : Z)
+  : list (bytes * bytes) * Z :=
+  match ps with
+  | [] => (h, added)
+  | (f, v) :: r => hset_loop (aset f v h) r (if amem f h then added else added + 1)
+  end.
+(** on a fresh key the engine answers hash.len() after the inserts *)
+Definition e_hset (ok_reply : bool) (ps : list (bytes * bytes)) (cur : option value) : frame * upd :=
+  match cur with
+  | Some (VHash h) =>
+      match hset_loop h ps 0 with
+      | (h', a) => (if ok_reply then r_ok else r_int a, Put (VHash h'))
+      end
+  | Some _ => (r_wrongtype, Keep)
+  | None =>
+      match hset_loop [] ps 0 with
+      | (h', _) => (if ok_reply then r_ok else r_int (len h'), Put (VHash h'))
+      end
+  end.
+
+Definition opt_bulk (o : option bytes) : frame := match o with Some b => r_bulk b | None => r_nil end.
+Definition e_hget (f : bytes) (cur : option value) : frame * upd :=
+  match cur with
+  | Some (VHash h) => (opt_bulk (alookup f h), Keep)
+  | Some _ => (r_wrongtype, Keep)
+  | None => (r_nil, Keep)
+  end.
+Definition e_hmget (fs : list bytes) (cur : option value) : frame * upd :=
+  match cur with
+  | Some (VHash h) => (FArray (map (fun f => opt_bulk (alookup f h)) fs), Keep)
+  | Some _ => (r_wrongtype, Keep)
+  | None => (FArray (map (fun _ => r_nil) fs), Keep)
+  end.
+
+(** pairs sorted by field: canonical order of HGETALL *)
+Fixpoint pinsert (x : bytes * bytes) (l : list (bytes * bytes)) : list (bytes * bytes) :=
+  match l with
+  | [] => [x]
+  | y :: r => if bleb (fst x) (fst y) then x :: l else y :: pinsert x r
+  end.
+Definition psort (l : list (bytes * bytes)) : list (bytes * bytes) := fold_right pinsert [] l.
+Definition flat_pairs (l : list (bytes * bytes)) : list frame :=
+  flat_map (fun p => [FBulk (fst p); FBulk (snd p)]) l.
+Definition e_hgetall (cur : option value) : frame * upd :=
+  match cur with
+  | Some (VHash h) => (FArray (flat_pairs (psort h)), Keep)
+  | Some _ => (r_wrongtype, Keep)
+  | None => (FArray [], Keep)
+  end.
+
+Fixpoint hdel_loop (h : list (bytes * bytes)) (fs : list bytes) (deleted : Z)
+  : list (bytes * bytes) * Z :=
+  match fs with
+  | [] => (h, deleted)
+  | f :: r => if amem f h then hdel_loop (aremove f h) r (deleted + 1) else hdel_loop h r deleted
+  end.
+Definition e_hdel (fs : list bytes) (cur : option value) : frame * upd :=
+  match cur with
+  | Some (VHash h) =>
+      match hdel_loop h fs 0 with
+      | (h', k) => (r_int k, match h' with [] => Del | _ => Put (VHash h') end)
+      end
+  | Some _ => (r_wrongtype, Keep)
+  | None => (r_int 0, Keep)
+  end.
+Definition e_hlen (cur : option value) : frame * upd :=
+  match cur with
+  | Some (VHash h) => (r_int (len h), Keep)
+  | Some _ => (r_wrongtype, Keep)
+  | None => (r_int 0, Keep)
+  end.
+Definition e_hexists (f : bytes) (cur : option value) : frame * upd :=
+  match cur with
+  | Some (VHash h) => (r_int (if amem f h then 1 else 0), Keep)
+  | Some _ => (r_wrongtype, Keep)
+  | None => (r_int 0, Keep)
+  end.
+Definition e_hkeys (cur : option value) : frame * upd :=
+  match cur with
+  | Some (VHash h) => (r_bulks (bsort (map fst h)), Keep)
+  | Some _ => (r_wrongtype, Keep)
+  | None => (FArray [], Keep)
+  end.
+Definition e_hvals (cur : option value) : frame * upd :=
+  match cur with
+  | Some (VHash h) => (r_bulks (bsort (map snd h)), Keep)
+  | Some _ => (r_wrongtype, Keep)
+  | None => (FArray [], Keep)
+  end.
+
+(** hincrby: the stored text is parsed as i64 (lossy UTF-8 cannot produce digits);
+    [current.checked_add(increment)] refuses an overflow *)
+Definition e_hincrby (f : bytes) (inc : Z) (cur : option value) : frame * upd :=
+  match cur with
+  | Some (VHash h) =>
+      match alookup f h with
+      | Some b =>
+          match parse_i64 b with
+          | Some c => if in_i64 (c + inc)
+                      then (r_int (c + inc), Put (VHash (aset f (print_int (c + inc)) h)))
+                      else (r_err, Keep)                (* would overflow *)
+          | None => (r_err, Keep)                (* NotInteger *)
+          end
+      | None => (r_int inc, Put (VHash (aset f (print_int inc) h)))
+      end
+  | Some _ => (r_wrongtype, Keep)
+  | None => (r_int inc, Put (VHash [(f, print_int inc)]))
+  end.
+
+(** =====================  HANDLERS  ===================== *)
+
+Definition key_of (parts : list frame) : option bytes := nth_arg parts 1.
+
+(** LPUSH / RPUSH key element [element ...] *)
+Definition h_push (left : bool) (d : db) (parts : list frame) : frame * db :=
+  if nparts parts <? 3 then (r_err, d) else
+  match key_of parts with
+  | None => (r_err, d)
+  | Some k => match all_bulks (skipn 2 parts) with
+              | None => (r_err, d)
+              | Some els => on_key d k (e_push left els)
+              end
+  end.
+(** commands of the shape NAME key *)
+Definition h_key1 (f : option value -> frame * upd) (d : db) (parts : list frame) : frame * db :=
+  if negb (nparts parts =? 2) then (r_err, d) else
+  match key_of parts with
+  | None => (r_err, d)
+  | Some k => on_key d k f
+  end.
+(** commands of the shape NAME key bulk *)
+Definition h_key_bulk (f : bytes -> option value -> frame * upd) (d : db) (parts : list frame) : frame * db :=
+  if negb (nparts parts =? 3) then (r_err, d) else
+  match key_of parts with
+  | None => (r_err, d)
+  | Some k => match nth_arg parts 2 with
+              | None => (r_err, d)
+              | Some a => on_key d k (f a)
+              end
+  end.
+(** LRANGE / LTRIM key start stop *)
+Definition h_range (f : Z -> Z -> option value -> frame * upd) (d : db) (parts : list frame) : frame * db :=
+  if negb (nparts parts =? 4) then (r_err, d) else
+  match key_of parts with
+  | None => (r_err, d)
+  | Some k =>
+      match nth_arg parts 2 with
+      | None => (r_err, d)
+      | Some a => match parse_isize a with
+        | None => (r_err, d)
+        | Some s =>
+            match nth_arg parts 3 with
+            | None => (r_err, d)
+            | Some b => match parse_isize b with
+              | None => (r_err, d)
+              | Some e => on_key d k (f s e)
+              end
+            end
+        end
+      end
+  end.
+Definition h_lindex (d : db) (parts : list frame) : frame * db :=
+  if negb (nparts parts =? 3) then (r_err, d) else
+  match key_of parts with
+  | None => (r_err, d)
+  | Some k =>
+      match nth_arg parts 2 with
+      | None => (r_err, d)
+      | Some a => match parse_isize a with
+                  | None => (r_err, d)
+                  | Some i => on_key d k (e_lindex i)
+                  end
+      end
+  end.
+(** LSET key index value / LREM key count element *)
+Definition h_int_bulk (f : Z -> bytes -> option value -> frame * upd) (d : db) (parts : list frame) : frame * db :=
+  if negb (nparts parts =? 4) then (r_err, d) else
+  match key_of parts with
+  | None => (r_err, d)
+  | Some k =>
+      match nth_arg parts 2 with
+      | None => (r_err, d)
+      | Some a => match parse_isize a with
+        | None => (r_err, d)
+        | Some i => match nth_arg parts 3 with
+                    | None => (r_err, d)
+                    | Some v => on_key d k (f i v)
+                    end
+        end
+      end
+  end.
+
+Definition h_sadd (d : db) (parts : list frame) : frame * db :=
+  if nparts parts <? 3 then (r_err, d) else
+  match key_of parts with
+  | None => (r_err, d)
+  | Some k => match all_bulks (skipn 2 parts) with
+              | None => (r_err, d)
+              | Some ms => on_key d k (e_sadd ms)
+              end
+  end.
+(** SREM / HDEL: non-bulk members are skipped *)
+Definition h_skipping (f : list bytes -> option value -> frame * upd) (d : db) (parts : list frame) : frame * db :=
+  if nparts parts <? 3 then (r_err, d) else
+  match key_of parts with
+  | None => (r_err, d)
+  | Some k => on_key d k (f (only_bulks (skipn 2 parts)))
+  end.
+(** SUNION / SINTER / SDIFF key [key ...] *)
+Definition h_setalg (f : db -> list bytes -> sres) (d : db) (parts : list frame) : frame * db :=
+  if nparts parts <? 2 then (r_err, d) else
+  match all_bulks (tl parts) with
+  | None => (r_err, d)
+  | Some keys => (sres_reply (f d keys), d)
+  end.
+Definition h_srandmember (d : db) (parts : list frame) (oracle : option frame) : frame * db :=
+  if (nparts parts <? 2) || (3 <? nparts parts) then (r_err, d) else
+  match key_of parts with
+  | None => (r_err, d)
+  | Some k =>
+      if nparts parts =? 3 then
+        match nth_arg parts 2 with
+        | None => (r_err, d)
+        | Some a => match parse_i64 a with
+                    | None => (r_err, d)
+                    | Some c => on_key d k (e_srandmember (Some c) oracle)
+                    end
+        end
+      else on_key d k (e_srandmember None oracle)
+  end.
+Definition h_spop (d : db) (parts : list frame) (oracle : option frame) : frame * db :=
+  if (nparts parts <? 2) || (3 <? nparts parts) then (r_err, d) else
+  match key_of parts with
+  | None => (r_err, d)
+  | Some k =>
+      if nparts parts =? 3 then
+        match nth_arg parts 2 with
+        | None => (r_err, d)
+        | Some a => match parse_usize a with
+                    | None => (r_err, d)
+                    | Some c => on_key d k (e_spop false c oracle)
+                    end
+        end
+      else on_key d k (e_spop true 1 oracle)
+  end.
+
+(** HSET / HMSET key field value [field value ...] *)
+Definition h_hset (ok_reply : bool) (d : db) (parts : list frame) : frame * db :=
+  if (nparts parts <? 4) || negb ((nparts parts - 2) mod 2 =? 0) then (r_err, d) else
+  match key_of parts with
+  | None => (r_err, d)
+  | Some k => match pairs_of (skipn 2 parts) with
+              | None => (r_err, d)
+              | Some ps => on_key d k (e_hset ok_reply ps)
+              end
+  end.
+Definition h_hmget (d : db) (parts : list frame) : frame * db :=
+  if nparts parts <? 3 then (r_err, d) else
+  match key_of parts with
+  | None => (r_err, d)
+  | Some k => match all_bulks (skipn 2 parts) with
+              | None => (r_err, d)
+              | Some fs => on_key d k (e_hmget fs)
+              end
+  end.
+Definition h_hincrby (d : db) (parts : list frame) : frame * db :=
+  if negb (nparts parts =? 4) then (r_err, d) else
+  match key_of parts with
+  | None => (r_err, d)
+  | Some k =>
+      match nth_arg parts 2 with
+      | None => (r_err, d)
+      | Some f =>
+          match nth_arg parts 3 with
+          | None => (r_err, d)
+          | Some a => match parse_i64 a with
+                      | None => (r_err, d)
+                      | Some inc => on_key d k (e_hincrby f inc)
+                      end
+          end
+      end
+  end.
 
 (** dispatch of this family; None = not a command of this family.
     [oracle] = the implementation's reply for commands with random outcomes. *)
 Definition exec_lists (now : Z) (d : db) (name : bytes) (parts : list frame) (oracle : option frame)
-  : option (frame * db) := None.
+  : option (frame * db) :=
+  if beq name (bs "LPUSH") then Some (h_push true d parts)
+  else if beq name (bs "RPUSH") then Some (h_push false d parts)
+  else if beq name (bs "LPOP") then Some (h_key1 (e_pop true) d parts)
+  else if beq name (bs "RPOP") then Some (h_key1 (e_pop false) d parts)
+  else if beq name (bs "LLEN") then Some (h_key1 e_llen d parts)
+  else if beq name (bs "LRANGE") then Some (h_range e_lrange d parts)
+  else if beq name (bs "LINDEX") then Some (h_lindex d parts)
+  else if beq name (bs "LSET") then Some (h_int_bulk e_lset d parts)
+  else if beq name (bs "LTRIM") then Some (h_range e_ltrim d parts)
+  else if beq name (bs "LREM") then Some (h_int_bulk e_lrem d parts)
+  else if beq name (bs "SADD") then Some (h_sadd d parts)
+  else if beq name (bs "SREM") then Some (h_skipping e_srem d parts)
+  else if beq name (bs "SMEMBERS") then Some (h_key1 e_smembers d parts)
+  else if beq name (bs "SISMEMBER") then Some (h_key_bulk e_sismember d parts)
+  else if beq name (bs "SCARD") then Some (h_key1 e_scard d parts)
+  else if beq name (bs "SUNION") then Some (h_setalg eng_sunion d parts)
+  else if beq name (bs "SINTER") then Some (h_setalg eng_sinter d parts)
+  else if beq name (bs "SDIFF") then Some (h_setalg eng_sdiff d parts)
+  else if beq name (bs "SRANDMEMBER") then Some (h_srandmember d parts oracle)
+  else if beq name (bs "SPOP") then Some (h_spop d parts oracle)
+  else if beq name (bs "HSET") then Some (h_hset false d parts)
+  else if beq name (bs "HMSET") then Some (h_hset true d parts)
+  else if beq name (bs "HGET") then Some (h_key_bulk e_hget d parts)
+  else if beq name (bs "HMGET") then Some (h_hmget d parts)
+  else if beq name (bs "HGETALL") then Some (h_key1 e_hgetall d parts)
+  else if beq name (bs "HDEL") then Some (h_skipping e_hdel d parts)
+  else if beq name (bs "HLEN") then Some (h_key1 e_hlen d parts)
+  else if beq name (bs "HEXISTS") then Some (h_key_bulk e_hexists d parts)
+  else if beq name (bs "HKEYS") then Some (h_key1 e_hkeys d parts)
+  else if beq name (bs "HVALS") then Some (h_key1 e_hvals d parts)
+  else if beq name (bs "HINCRBY") then Some (h_hincrby d parts)
+  else None.
+
+(** ---- WATCH marks (C08): the keys on which the engine calls mark_modified ----
+    lpush/rpush, lset, hset, hincrby: on every success.  lpop/rpop: if an element came out.
+    ltrim, hdel: whenever the key holds a list / hash (even if nothing changed); nothing for a
+    missing key.  lrem: if removed > 0.  sadd: if added > 0 (always for a new set).
+    srem: if the set is empty afterwards, else if removed > 0.  spop: if the result is not empty.
+    No read marks; a refused command marks nothing. *)
+Definition marks_lists (d d' : db) (name : bytes) (parts : list frame) (reply : frame) : list bytes :=
+  let k1 := match nth_arg parts 1 with Some k => [k] | None => [] end in
+  let held := match nth_arg parts 1 with Some k => get_val d k | None => None end in
+  let gone := match nth_arg parts 1 with Some k => negb (amem k (d_data d')) | None => false end in
+  if beq name (bs "LPUSH") || beq name (bs "RPUSH") || beq name (bs "HINCRBY") then
+    (match reply with FInt _ => k1 | _ => [] end)
+  else if beq name (bs "LPOP") || beq name (bs "RPOP") then
+    (match reply with FBulk _ => k1 | _ => [] end)
+  else if beq name (bs "LSET") then (match reply with FSimple _ => k1 | _ => [] end)
+  else if beq name (bs "LTRIM") then
+    (match reply, held with FSimple _, Some (VList _) => k1 | _, _ => [] end)
+  else if beq name (bs "LREM") || beq name (bs "SADD") then
+    (match reply with FInt n => if 0 <? n then k1 else [] | _ => [] end)
+  else if beq name (bs "SREM") then
+    (match reply, held with
+     | FInt n, Some (VSet _) => if gone || (0 <? n) then k1 else []
+     | _, _ => []
+     end)
+  else if beq name (bs "SPOP") then
+    (match reply with FBulk _ => k1 | FArray (_ :: _) => k1 | _ => [] end)
+  else if beq name (bs "HSET") then (match reply with FInt _ => k1 | _ => [] end)
+  else if beq name (bs "HMSET") then (match reply with FSimple _ => k1 | _ => [] end)
+  else if beq name (bs "HDEL") then
+    (match reply, held with FInt _, Some (VHash _) => k1 | _, _ => [] end)
+  else [].
